@@ -94,6 +94,128 @@ def _rewrite(args):
         return (kind, 'error', traceback.format_exc()[-300:], None)
 
 
+def _apply_unified(sources, patch_text):
+    """apply a unified diff (as written by `git diff`) to a dict {relative path: text} in memory; returns the changed paths -> new text,
+    or None when a hunk does not fit (the tree under test differs from the one the patch was written for)"""
+    import re
+    out = {}
+    files = re.split(r'(?m)^diff --git ', patch_text)
+    for blk in files[1:]:
+        m = re.search(r'(?m)^\+\+\+ b/(\S+)', blk)
+        if not m:
+            continue
+        path = m.group(1)
+        if path not in sources:
+            return None
+        lines = sources[path].split('\n')
+        res = []
+        pos = 0
+        for hm in re.finditer(r'(?m)^@@ -(\d+)(?:,(\d+))? \+(\d+)(?:,(\d+))? @@.*\n((?:[ +\-\\].*\n?|\n)*)', blk):
+            start = int(hm.group(1)) - 1
+            body = hm.group(5).split('\n')
+            if body and body[-1] == '':
+                body = body[:-1]
+            if start < pos:
+                return None
+            res.extend(lines[pos:start])
+            pos = start
+            for bl in body:
+                if bl.startswith('\\'):
+                    continue
+                tag, txt = (bl[0], bl[1:]) if bl else (' ', '')
+                if tag == ' ':
+                    if pos >= len(lines) or lines[pos] != txt:
+                        return None
+                    res.append(txt)
+                    pos += 1
+                elif tag == '-':
+                    if pos >= len(lines) or lines[pos] != txt:
+                        return None
+                    pos += 1
+                elif tag == '+':
+                    res.append(txt)
+        res.extend(lines[pos:])
+        out[path] = '\n'.join(res)
+    return out
+
+
+def _external(args):
+    """one committed external patch applied in memory to the tree under test: a behaviour-preserving patch (refactored/<id>) must not
+    produce a violation, a seeded change written for this property (seeded/<id>) must be reported"""
+    pid, root, kind, ident, patch_path = args
+    try:
+        from .loader import Repo, AnalysisError
+        from . import report
+        from .main import analyse
+        with open(patch_path, 'rb') as f:
+            ptxt = f.read().decode('utf-8', 'replace')
+        import re
+        paths = set(re.findall(r'(?m)^\+\+\+ b/(\S+)', ptxt))
+        if not paths or not all(p_.startswith('pexpect/') and p_.endswith('.py') for p_ in paths):
+            return (kind, ident, 'skipped', 'touches files outside the package')
+        srcs = {}
+        for p_ in paths:
+            fp = os.path.join(root, p_)
+            if not os.path.exists(fp):
+                return (kind, ident, 'skipped', 'file missing in the tree under test')
+            with open(fp, 'rb') as f:
+                srcs[p_] = f.read().decode('utf-8')
+        new = _apply_unified(srcs, ptxt)
+        if new is None:
+            return (kind, ident, 'skipped', 'does not apply to the tree under test')
+        ov = {}
+        for p_, txt in new.items():
+            try:
+                compile(txt, p_, 'exec')
+            except SyntaxError:
+                return (kind, ident, 'skipped', 'does not compile')
+            ov[os.path.basename(p_)[:-3]] = txt
+        repo = Repo(root, overrides=ov)
+        known = report.load_known()
+        try:
+            run = analyse(pid, repo, 'quick')
+        except AnalysisError as e:
+            return (kind, ident, 'analysis-error', str(e)[:160])
+        new_v = [o for o in run.violations() if report.match_known(o, known) is None]
+        if new_v:
+            return (kind, ident, 'violation', '%s-%s %s: %s' % (new_v[0].prop, new_v[0].clause, new_v[0].unit, new_v[0].what[:100]))
+        if run.errors:
+            return (kind, ident, 'analysis-error', run.errors[0][:160])
+        return (kind, ident, 'silent', '')
+    except Exception:
+        return (kind, ident, 'error', traceback.format_exc()[-300:])
+
+
+def _external_tasks(pid, root):
+    here = os.path.dirname(os.path.dirname(os.path.abspath(__file__)))
+    tasks = []
+    rd = os.path.join(here, 'refactored')
+    if os.path.isdir(rd):
+        for i in sorted(os.listdir(rd)):
+            pf = os.path.join(rd, i, 'patch.diff')
+            if os.path.exists(pf):
+                tasks.append((pid, root, 'preserving', i, pf))
+    sd = os.path.join(here, 'seeded')
+    if os.path.isdir(sd):
+        import json
+        for i in sorted(os.listdir(sd)):
+            pf = os.path.join(sd, i, 'patch.diff')
+            mf = os.path.join(sd, i, 'meta.json')
+            if not (os.path.exists(pf) and os.path.exists(mf)):
+                continue
+            try:
+                meta = json.load(open(mf))
+            except Exception:
+                continue
+            det = meta.get('detection', {})
+            # the seeded changes this property's check is expected to report: its own, and those recorded as reported by it
+            if meta.get('property') == pid and det.get('own_property_fires'):
+                tasks.append((pid, root, 'seeded', i, pf))
+            elif meta.get('property') != pid and pid in (det.get('fired') or []) and not det.get('own_property_fires'):
+                tasks.append((pid, root, 'seeded', i, pf))
+    return tasks
+
+
 REWRITE_KINDS = ['format', 'rename', 'swapif', 'cmpflip', 'nestand', 'dropelse', 'addelse', 'tempret', 'plainaug', 'nop', 'kwargs',
                  'demorgan', 'swapassign', 'alias']
 
@@ -131,6 +253,15 @@ def run_selftest(pid, root, out, jobs=None):
             rw = pool.map(_rewrite, [(pid, root, k) for k in REWRITE_KINDS])
     except Exception:
         rw = [('*', 'error', traceback.format_exc()[-200:], None)]
+    ext = []
+    try:
+        et = _external_tasks(pid, root)
+        if et:
+            import multiprocessing as mp
+            with mp.get_context('fork').Pool(min(16, os.cpu_count() or 2)) as pool:
+                ext = pool.map(_external, et, chunksize=2)
+    except Exception:
+        ext = [('*', '*', 'error', traceback.format_exc()[-200:])]
     killed = sum(1 for r in results if r[1] in ('killed', 'killed-other'))
     survived = [r for r in results if r[1] == 'SURVIVED']
     aerr = [r for r in results if r[1] in ('analysis-error', 'error')]
@@ -152,7 +283,22 @@ def run_selftest(pid, root, out, jobs=None):
     for r in rw:
         if r[1] != 'silent':
             out('SELFTEST-WEAK property=%s whole-package rewrite `%s` -> %s: %s' % (pid, r[0], r[1], r[2]))
+    pres_x = [r for r in ext if r[0] == 'preserving']
+    seed_x = [r for r in ext if r[0] == 'seeded']
+    out('SELFTEST-PATCHES property=%s independently written behaviour-preserving patches: %d applied, %d silent, %d cannot-decide, %d FALSE-ALARM, %d skipped; '
+        'seeded changes expected to be reported by this check: %d applied, %d reported, %d cannot-decide, %d MISSED, %d skipped'
+        % (pid, sum(1 for r in pres_x if r[2] != 'skipped'), sum(1 for r in pres_x if r[2] == 'silent'), sum(1 for r in pres_x if r[2] == 'analysis-error'),
+           sum(1 for r in pres_x if r[2] == 'violation'), sum(1 for r in pres_x if r[2] == 'skipped'),
+           sum(1 for r in seed_x if r[2] != 'skipped'), sum(1 for r in seed_x if r[2] == 'violation'), sum(1 for r in seed_x if r[2] == 'analysis-error'),
+           sum(1 for r in seed_x if r[2] == 'silent'), sum(1 for r in seed_x if r[2] == 'skipped')))
+    for r in pres_x:
+        if r[2] in ('violation', 'error'):
+            out('SELFTEST-WEAK property=%s behaviour-preserving patch refactored/%s -> %s: %s' % (pid, r[1], 'FALSE-ALARM' if r[2] == 'violation' else r[2], r[3]))
+    for r in seed_x:
+        if r[2] in ('silent', 'error'):
+            out('SELFTEST-WEAK property=%s seeded change seeded/%s -> %s %s' % (pid, r[1], 'MISSED' if r[2] == 'silent' else r[2], r[3]))
     return {
+        'external_patches': [{'kind': r[0], 'id': r[1], 'result': r[2], 'detail': r[3]} for r in ext],
         'package_rewrites': [{'kind': r[0], 'result': r[1], 'detail': r[2], 'sites': r[3]} for r in rw],
         'mutants': len(muts), 'killed': killed, 'survived': [r[0] for r in survived],
         'analysis_error': [r[0] for r in aerr], 'skipped': [r[0] for r in skipped],
